@@ -43,6 +43,7 @@ import types
 
 import common
 from common import enc, dec, err_kind
+from props import c12_tr
 
 ID = "C12"
 RULE = ("filters ZFilter/LinearFilter(b, a) and z-expressions with small int / dyadic / Fraction / Gaussian-int "
@@ -2637,3 +2638,41 @@ def classify(c, io, drv):
         if any(x == "nan" for x in exp) or any(x == "nan" for x in io.get("vals", [])):
             return "%s:nan-mismatch-or-value" % tag
     return "%s:value" % tag
+
+
+# =============================================================================================
+# source translator (harness/props/c12_tr.py -> lean/ALV/Gen/C12Src.lean)
+# =============================================================================================
+def regenerate(eng=None):
+    return c12_tr.regenerate(eng)
+
+
+def extra_checks(eng):
+    """translator self test + the list of what is / is not under the translator (evidence)"""
+    import os
+    import subprocess
+    eng.extra["translated"] = {
+        "translator": "harness/props/c12_tr.py -> lean/ALV/Gen/C12Src.lean (rewritten before every build)",
+        "under_the_translator": c12_tr.TRANSLATED,
+        "hand_written_only": c12_tr.NOT_TRANSLATED,
+    }
+    committed = None
+    try:
+        r = subprocess.run(["git", "-C", common.VERIF, "show", "HEAD:lean/" + c12_tr.GEN_REL.replace(os.sep, "/")],
+                           capture_output=True, text=True, timeout=30)
+        if r.returncode == 0:
+            committed = r.stdout
+    except Exception:
+        committed = None
+    if committed is None:
+        with open(os.path.join(common.LEAN, c12_tr.GEN_REL)) as f:
+            committed = f.read()
+    try:
+        texts = c12_tr.read_sources()
+        c12_tr.translate(texts)
+    except Exception as e:            # already reported by regenerate() as a broken obligation
+        yield ("translator-selftest", False, "the source under test does not translate (%s: %s)" % (type(e).__name__, e))
+        return
+    # the self test runs on the source under test when that is the committed state, else the edits may not apply
+    for name, ok, detail in c12_tr.selftest(texts, committed):
+        yield (name, ok, detail)
